@@ -293,7 +293,9 @@ def r3_mapping(rep, src):
         raise AnalysisError('__restriction_RE is applied to %r, which is not a single restriction term of the scenario' % (s_,))
     heap = H.Heap(mod, hooks={'regex:__dep_RE.match': dep_match, 'regex:__restriction_RE.match': restriction_match,
                               '.groupdict': lambda it, args, kw: it.h.objs[args[0].name]['groups'],
-                              '.group': lambda it, args, kw: it.h.dict_get(it.h.objs[args[0].name]['groups'], args[1]),
+                              # Match.group(name): the group; group(n1, n2, ...): the tuple of them
+                              '.group': lambda it, args, kw: it.h.dict_get(it.h.objs[args[0].name]['groups'], args[1]) if len(args) == 2
+                              else tuple(it.h.dict_get(it.h.objs[args[0].name]['groups'], a_) for a_ in args[1:]),
                               'warnings.warn': lambda it, args, kw: warned.append(args[0])})
     heap.symbolic_strings = True
     it = H.Interp(heap)
